@@ -119,9 +119,210 @@ Definition isErr (s : list N) : bool := (fst (decode_rune s) =? RuneError)%N.
 Lemma lead_class : forall a, in_rng 194 244 a = true ->
   (a <? 128)%N = false /\ rune_start a = true /\ isErr [a] = true.
 Proof.
-  intros a H. apply rng_In in H. revert a H. apply Forall_forall.
-  apply forallb_forall' with (f := fun a => negb (a <? 128)%N && rune_start a && isErr [a]).
-  - intros a Ha. apply andb_true_iff in Ha. destruct Ha as [Ha C]. apply andb_true_iff in Ha.
-    destruct Ha as [A B]. apply negb_true_iff in A. auto.
-  - vm_compute. reflexivity.
+  intros a H. apply rng_In in H.
+  assert (F : forallb (fun a => negb (a <? 128)%N && rune_start a && isErr [a]) (rng 194 244) = true)
+    by (vm_compute; reflexivity).
+  rewrite forallb_forall in F. specialize (F a H).
+  apply andb_true_iff in F. destruct F as [F C]. apply andb_true_iff in F. destruct F as [A B].
+  apply negb_true_iff in A. auto.
+Qed.
+
+Lemma cont_class : forall b, contb b = true -> (b <? 128)%N = false /\ rune_start b = false.
+Proof.
+  intros b H. split.
+  - unfold contb, in_rng in H. apply andb_true_iff in H. destruct H as [A _]. apply N.leb_le in A.
+    apply N.ltb_ge. lia.
+  - unfold rune_start, is_cont. unfold contb, in_rng in H. now rewrite H.
+Qed.
+
+Lemma dec2_ok : forall a b, in_rng 194 223 a = true -> contb b = true -> isErr [a; b] = false.
+Proof.
+  intros a b Ha Hb. apply rng_In in Ha. apply rng_In in Hb.
+  assert (F : forallb (fun a => forallb (fun b => negb (isErr [a; b])) (rng 128 191)) (rng 194 223) = true)
+    by (vm_compute; reflexivity).
+  rewrite forallb_forall in F. specialize (F a Ha). rewrite forallb_forall in F. specialize (F b Hb).
+  now apply negb_true_iff in F.
+Qed.
+
+Lemma dec3_ok : forall a b c, in_rng 224 239 a = true -> contb b = true -> contb c = true ->
+  ok3 a b c = true -> isErr [a; b; c] = false.
+Proof.
+  intros a b c Ha Hb Hc Hk. apply rng_In in Ha. apply rng_In in Hb. apply rng_In in Hc.
+  assert (F : forallb (fun a => forallb (fun b => forallb (fun c =>
+                implb (ok3 a b c) (negb (isErr [a; b; c]))) (rng 128 191)) (rng 128 191)) (rng 224 239) = true)
+    by (vm_compute; reflexivity).
+  rewrite forallb_forall in F. specialize (F a Ha). rewrite forallb_forall in F. specialize (F b Hb).
+  rewrite forallb_forall in F. specialize (F c Hc). rewrite Hk in F. cbn in F.
+  now apply negb_true_iff in F.
+Qed.
+
+Lemma part2_err : forall a b, in_rng 224 244 a = true -> contb b = true -> isErr [a; b] = true.
+Proof.
+  intros a b Ha Hb. apply rng_In in Ha. apply rng_In in Hb.
+  assert (F : forallb (fun a => forallb (fun b => isErr [a; b]) (rng 128 191)) (rng 224 244) = true)
+    by (vm_compute; reflexivity).
+  rewrite forallb_forall in F. specialize (F a Ha). rewrite forallb_forall in F. exact (F b Hb).
+Qed.
+
+Lemma part3_err : forall a b c, in_rng 240 244 a = true -> contb b = true -> contb c = true ->
+  isErr [a; b; c] = true.
+Proof.
+  intros a b c Ha Hb Hc. apply rng_In in Ha. apply rng_In in Hb. apply rng_In in Hc.
+  assert (F : forallb (fun a => forallb (fun b => forallb (fun c => isErr [a; b; c])
+                (rng 128 191)) (rng 128 191)) (rng 240 244) = true)
+    by (vm_compute; reflexivity).
+  rewrite forallb_forall in F. specialize (F a Ha). rewrite forallb_forall in F. specialize (F b Hb).
+  rewrite forallb_forall in F. exact (F c Hc).
+Qed.
+
+Lemma rng_widen : forall lo hi lo' hi' b, (lo' <= lo)%N -> (hi <= hi')%N ->
+  in_rng lo hi b = true -> in_rng lo' hi' b = true.
+Proof.
+  unfold in_rng. intros. apply andb_true_iff in H1. destruct H1 as [A B].
+  apply N.leb_le in A, B. apply andb_true_iff. split; apply N.leb_le; lia.
+Qed.
+
+(* ---- shapes of a well-formed encoding ------------------------------------------------------------ *)
+Inductive enc_shape : list N -> Prop :=
+| sh1 : forall a, (a <? 128)%N = true -> enc_shape [a]
+| sh2 : forall a b, in_rng 194 223 a = true -> contb b = true -> enc_shape [a; b]
+| sh3 : forall a b c, in_rng 224 239 a = true -> contb b = true -> contb c = true -> ok3 a b c = true ->
+        enc_shape [a; b; c]
+| sh4 : forall a b c d, in_rng 240 244 a = true -> contb b = true -> contb c = true -> contb d = true ->
+        enc_shape [a; b; c; d].
+
+Lemma wf_enc_shape : forall e, wf_enc e = true -> enc_shape e.
+Proof.
+  intros e H. destruct e as [|a [|b [|c [|d [|x t]]]]]; cbn in H; try discriminate.
+  - now constructor.
+  - apply andb_true_iff in H. destruct H. now constructor.
+  - repeat (apply andb_true_iff in H; destruct H as [H ?]). now constructor.
+  - repeat (apply andb_true_iff in H; destruct H as [H ?]). now constructor.
+Qed.
+
+Lemma wf_enc_nonempty : forall e, wf_enc e = true -> e <> [].
+Proof. intros e H. destruct e; [discriminate|congruence]. Qed.
+
+(* ---- utf8 closure properties ---------------------------------------------------------------------- *)
+Lemma utf8_app2 : forall a b, utf8 a -> utf8 b -> utf8 (a ++ b).
+Proof. intros a b Ha Hb. induction Ha; [exact Hb|]. rewrite <- app_assoc. now constructor. Qed.
+Lemma utf8_one : forall e, wf_enc e = true -> utf8 e.
+Proof. intros. rewrite <- (app_nil_r e). constructor; [assumption|constructor]. Qed.
+
+Lemma utf8_snoc : forall s, utf8 s -> s = [] \/ exists w e, s = w ++ e /\ utf8 w /\ wf_enc e = true.
+Proof.
+  intros s H. induction H as [|e s He Hs IH]; [now left|]. right.
+  destruct IH as [->|(w & e' & -> & Hw & He')].
+  - exists [], e. rewrite app_nil_r. repeat split; [constructor|assumption].
+  - exists (e ++ w), e'. rewrite app_assoc. repeat split; [|assumption].
+    apply utf8_app2; [now apply utf8_one|assumption].
+Qed.
+
+(* ---- trim on well-formed text --------------------------------------------------------------------- *)
+Lemma trim_utf8 : forall s, utf8 s -> trimLastInvalidRune s = s.
+Proof.
+  intros s H. destruct (utf8_snoc s H) as [->|(w & e & -> & Hw & He)]; [reflexivity|].
+  rewrite trim_is_z, rev_app_distr. apply wf_enc_shape in He.
+  destruct He as [a Ha|a b Ha Hb|a b c Ha Hb Hc Hk|a b c d Ha Hb Hc Hd]; cbn [rev app trim_z].
+  - rewrite Ha. cbn [rev]. now rewrite rev_involutive.
+  - destruct (cont_class b Hb) as [B1 B2]. rewrite B1, B2.
+    destruct (lead_class a (rng_widen _ _ 194 244 _ ltac:(lia) ltac:(lia) Ha)) as (A1 & A2 & _).
+    rewrite A1, A2. pose proof (dec2_ok a b Ha Hb) as D. unfold isErr in D. rewrite D.
+    cbn [rev]. rewrite rev_involutive, <- app_assoc. reflexivity.
+  - destruct (cont_class b Hb) as [B1 B2]. destruct (cont_class c Hc) as [C1 C2]. rewrite C1, C2, B1, B2.
+    destruct (lead_class a (rng_widen _ _ 194 244 _ ltac:(lia) ltac:(lia) Ha)) as (A1 & A2 & _).
+    rewrite A1, A2. pose proof (dec3_ok a b c Ha Hb Hc Hk) as D. unfold isErr in D. rewrite D.
+    cbn [rev]. rewrite rev_involutive, <- app_assoc. reflexivity.
+  - destruct (cont_class b Hb) as [B1 B2]. destruct (cont_class c Hc) as [C1 C2].
+    destruct (cont_class d Hd) as [D1 D2]. rewrite D1, D2, C1, C2, B1, B2.
+    cbn [rev]. rewrite rev_involutive, <- app_assoc. reflexivity.
+Qed.
+
+(* t is a cut character: a nonempty proper prefix of a well-formed encoding *)
+Definition cut_enc (t : list N) : Prop :=
+  t <> [] /\ exists t', t' <> [] /\ wf_enc (t ++ t') = true.
+
+Lemma trim_cut : forall w t, cut_enc t -> trimLastInvalidRune (w ++ t) = w.
+Proof.
+  intros w t (Ht & t' & Ht' & He). rewrite trim_is_z, rev_app_distr. apply wf_enc_shape in He.
+  remember (t ++ t') as e eqn:E. destruct He as [a Ha|a b Ha Hb|a b c Ha Hb Hc Hk|a b c d Ha Hb Hc Hd].
+  - destruct t as [|x [|y t0]]; try congruence; cbn in E; inversion E; destruct t'; try congruence; discriminate.
+  - destruct t as [|x [|y t0]]; try congruence; cbn in E; inversion E; subst.
+    + destruct (lead_class a (rng_widen _ _ 194 244 _ ltac:(lia) ltac:(lia) Ha)) as (A1 & A2 & A3).
+      cbn [rev app trim_z]. unfold isErr in A3. rewrite A1, A2, A3. apply rev_involutive.
+    + destruct t0; destruct t'; try congruence; discriminate.
+  - destruct (lead_class a (rng_widen _ _ 194 244 _ ltac:(lia) ltac:(lia) Ha)) as (A1 & A2 & A3).
+    destruct (cont_class b Hb) as [B1 B2].
+    destruct t as [|x [|y [|z t0]]]; try congruence; cbn in E; inversion E; subst.
+    + cbn [rev app trim_z]. unfold isErr in A3. rewrite A1, A2, A3. apply rev_involutive.
+    + cbn [rev app trim_z]. rewrite B1, B2, A1, A2.
+      pose proof (part2_err a b (rng_widen _ _ 224 244 _ ltac:(lia) ltac:(lia) Ha) Hb) as P.
+      unfold isErr in P. rewrite P. apply rev_involutive.
+    + destruct t0; destruct t'; try congruence; discriminate.
+  - destruct (lead_class a (rng_widen _ _ 194 244 _ ltac:(lia) ltac:(lia) Ha)) as (A1 & A2 & A3).
+    destruct (cont_class b Hb) as [B1 B2]. destruct (cont_class c Hc) as [C1 C2].
+    destruct t as [|x [|y [|z [|u t0]]]]; try congruence; cbn in E; inversion E; subst.
+    + cbn [rev app trim_z]. unfold isErr in A3. rewrite A1, A2, A3. apply rev_involutive.
+    + cbn [rev app trim_z]. rewrite B1, B2, A1, A2.
+      pose proof (part2_err a b (rng_widen _ _ 224 244 _ ltac:(lia) ltac:(lia) Ha) Hb) as P.
+      unfold isErr in P. rewrite P. apply rev_involutive.
+    + cbn [rev app trim_z]. rewrite C1, C2, B1, B2, A1, A2.
+      pose proof (part3_err a b c Ha Hb Hc) as P. unfold isErr in P. rewrite P. apply rev_involutive.
+    + destruct t0; destruct t'; try congruence; discriminate.
+Qed.
+
+Lemma wf_enc_len : forall e, wf_enc e = true -> (1 <= length e <= 4)%nat.
+Proof. intros e H. apply wf_enc_shape in H. destruct H; cbn; lia. Qed.
+
+(* ---- cutting well-formed text at byte n ------------------------------------------------------------ *)
+Lemma utf8_cut : forall s, utf8 s -> forall n, (n <= length s)%nat ->
+  exists w t rem, s = w ++ t ++ rem /\ (length w + length t = n)%nat /\ utf8 w /\ utf8 (t ++ rem) /\
+    ((t = []) \/ (cut_enc t /\ exists t' rest, rem = t' ++ rest /\ t' <> [] /\ wf_enc (t ++ t') = true /\ utf8 rest)).
+Proof.
+  intros s H. induction H as [|e s He Hs IH]; intros n Hn.
+  - cbn in Hn. exists [], [], []. repeat split; try constructor. lia. now left.
+  - rewrite app_length in Hn. destruct (Nat.le_gt_cases (length e) n) as [L|L].
+    + destruct (IH (n - length e)%nat ltac:(lia)) as (w & t & rem & -> & Hl & Hw & Htr & Hc).
+      exists (e ++ w), t, rem. rewrite <- app_assoc. repeat split; try assumption.
+      * rewrite app_length. lia.
+      * apply utf8_app2; [now apply utf8_one|assumption].
+    + destruct n as [|n].
+      * exists [], [], (e ++ s). repeat split; try constructor; try assumption. now left.
+      * exists [], (firstn (S n) e), (skipn (S n) e ++ s).
+        assert (E : e = firstn (S n) e ++ skipn (S n) e) by (symmetry; apply firstn_skipn).
+        repeat split.
+        -- cbn [app]. rewrite app_assoc, <- E. reflexivity.
+        -- cbn [length]. rewrite firstn_length. lia.
+        -- constructor.
+        -- rewrite app_assoc, <- E. now constructor.
+        -- right. assert (N1 : firstn (S n) e <> []).
+           { destruct e; [cbn in L; lia|cbn; congruence]. }
+           assert (N2 : skipn (S n) e <> []).
+           { intro Z0. assert (length (skipn (S n) e) = 0%nat) by now rewrite Z0.
+             rewrite skipn_length in H. lia. }
+           split.
+           ++ split; [exact N1|]. exists (skipn (S n) e). split; [exact N2|]. now rewrite <- E.
+           ++ exists (skipn (S n) e), s. repeat split; try assumption. now rewrite <- E.
+Qed.
+
+(* the key fact used three times by getLineByOffset *)
+Lemma trim_prefix_utf8 : forall s n, utf8 s -> (n <= length s)%nat ->
+  exists w rem, s = w ++ rem /\ trimLastInvalidRune (firstn n s) = w /\ utf8 w /\ utf8 rem /\
+    (length w <= n <= length w + 3)%nat /\
+    (length w = n \/ exists e rest, rem = e ++ rest /\ wf_enc e = true /\ utf8 rest /\
+                                    (length w < n < length w + length e)%nat).
+Proof.
+  intros s n H Hn. destruct (utf8_cut s H n Hn) as (w & t & rem & -> & Hl & Hw & Htr & Hc).
+  exists w, (t ++ rem). split; [reflexivity|].
+  assert (F : firstn n (w ++ t ++ rem) = w ++ t).
+  { rewrite app_assoc. replace n with (length (w ++ t)) by (rewrite app_length; lia). apply firstn_app_len. }
+  rewrite F. destruct Hc as [->|(Hc & t' & rest & -> & Nt' & He & Hr)].
+  - rewrite app_nil_r. split; [now apply trim_utf8|]. cbn in Hl. repeat split; try assumption; try lia.
+    left. lia.
+  - split; [now apply trim_cut|]. pose proof (wf_enc_len _ He) as Le. rewrite app_length in Le.
+    assert (length t <> 0)%nat by (destruct Hc as [Hc _]; destruct t; [congruence|cbn; lia]).
+    assert (length t' <> 0)%nat by (destruct t'; [congruence|cbn; lia]).
+    repeat split; try assumption; try lia.
+    right. exists (t ++ t'), rest. rewrite <- app_assoc. repeat split; try assumption; try lia.
+    rewrite app_length. lia.
 Qed.
